@@ -27,7 +27,7 @@ OM2 = {"default": {}, "small": {"large_om2": 0.0}, "large": {"large_om2": float(
 SCRIBBLES = ("scale", "zero", "nan", "add")
 BADKINDS = ("nanT0", "infT0", "shortT1", "longT0", "nanV")
 AUX = ("omegalist1", "omegalist2", "tags2preene", "preene2betafree", "tracer", "str")
-COMPONENTS = ("gfcalc", "thermo", "kinetic", "NNstar", "GFstarset", "vkinetic", "taylor", "yaml:crystal", "yaml:crystal-extra",
+COMPONENTS = ("gfcalc", "gfcalc-many", "thermo", "kinetic", "NNstar", "GFstarset", "vkinetic", "taylor", "yaml:crystal", "yaml:crystal-extra",
               "yaml:crystal-simple", "yaml:groupop", "yaml:pairstate", "yaml:clustersite", "yaml:cluster", "yaml:vtk", "vtkdict")
 
 
@@ -48,6 +48,24 @@ def _extra_crystals():
                                       ["La", "Ga", "O"]))
         _EXTRA.append(crystal.Crystal(np.array([[1., 0.], [0., 1.3]]), [[np.zeros(2)], [np.array([.5, .5])]], ["A", "B"]))
     return _EXTRA
+
+
+_MANY = {}
+
+
+def _many_type_gfcalcs():
+    """Stand-alone Green-function calculators whose jump networks have more than ten symmetry-unique jump types
+    (2-D oblique and triclinic Bravais lattices with long cutoffs, a two-site monoclinic cell): cheap to build
+    (no star sets), and the only place where two-digit jump-type numbers occur."""
+    if not _MANY:
+        obl = crystal.Crystal(np.array([[1., 0.3], [0., 1.1]]), [np.zeros(2)])
+        tric = crystal.Crystal(np.array([[1., 0.1, 0.25], [0., 1.1, 0.15], [0., 0., 0.9]]), [np.zeros(3)])
+        mono2 = crystal.Crystal(np.array([[1., 0., 0.25], [0., 1.1, 0.], [0., 0., 0.9]]),
+                                [np.zeros(3), np.array([0.3, 0.5, 0.4])])
+        for name, c, cut in (("obl13", obl, 3.1), ("tric12", tric, 1.75), ("tric15", tric, 2.0), ("mono2x9", mono2, 1.4)):
+            jn, sl = c.jumpnetwork(0, cut), c.sitelist(0)
+            _MANY[name] = (c, sl, jn)
+    return _MANY
 
 
 class Caller(object):
@@ -704,6 +722,33 @@ class Run(RunBase):
                     self.fail("component-gfcalc", "G({},{},{}) original {!r} reloaded {!r}".format(PS.i, PS.j, PS.dx, va, vb))
             if not np.allclose(g.Diffusivity(), g2.Diffusivity(), rtol=1e-12, atol=0):
                 self.fail("component-gfcalc", "Diffusivity differs after reload")
+        elif what == "gfcalc-many":
+            many = _many_type_gfcalcs()
+            name = sorted(many)[arg % len(many)]
+            c, sl, jn = many[name]
+            g = GFcalc.GFCrystalcalc(c, 0, sl, jn, 2)
+            g2 = self.roundtrip(g.addhdf5, lambda grp: GFcalc.GFCrystalcalc.loadhdf5(c, grp))
+            pre, ene = np.ones(len(sl)), np.array([0.1 * i for i in range(len(sl))])
+            preT = np.array([1.0 + 0.05 * rnd.random() for _ in jn])
+            eneT = np.array([0.4 + rnd.random() for _ in jn])         # every jump type its own rate
+            outs = []
+            for x in (g, g2):
+                try:
+                    x.SetRates(pre, ene, preT, eneT)
+                    outs.append(("ok", x.Diffusivity(), [x(0, len(x.invmap) - 1, dx) for (i, j), dx in
+                                                         [jl[0] for jl in jn[:6]] if (i, j) == (0, len(x.invmap) - 1)]))
+                except Exception as e:
+                    outs.append(("exc", type(e).__name__))
+            self.probes["gfcalc-{}-jump-types".format(len(jn))] += 1
+            if outs[0][0] != outs[1][0]:
+                self.fail("component-gfcalc", "{}: original {} but reloaded {}".format(name, outs[0][:2], outs[1][:2]))
+            if outs[0][0] == "ok":
+                if not np.allclose(outs[0][1], outs[1][1], rtol=1e-12, atol=1e-300):
+                    self.fail("component-gfcalc", "{} ({} jump types): Diffusivity {} after reload {}".format(
+                        name, len(jn), outs[0][1].tolist(), outs[1][1].tolist()))
+                for va, vb in zip(outs[0][2], outs[1][2]):
+                    if abs(va - vb) > 1e-12 * max(abs(va), 1e-300):
+                        self.fail("component-gfcalc", "{}: G differs after reload: {!r} vs {!r}".format(name, va, vb))
         elif what in ("thermo", "kinetic", "NNstar", "GFstarset"):
             s = getattr(calc, what)
             s2 = self.roundtrip(s.addhdf5, lambda grp: stars.StarSet.loadhdf5(calc.crys, grp))
